@@ -31,18 +31,28 @@ from . import c01, c08
 ID = "C16"
 COVER_FILES = ['instances/preflibinstance/ordinal.py', 'instances/preflibinstance/categorical.py', 'instances/preflibinstance/instance.py']
 RULE = ("random ordinal (soc/soi/toc/toi) and categorical contents built as text from a recorded structure: "
-        "1-6 alternatives, names drawn with repetition from a pool with generated-suffix look-alikes "
-        "(X, X__1, X__2, X__1__1, '', __1, Y, Y__1), header ids distinct (85%) or repeated, 0-8 ballot lines drawn "
-        "with repetition from a pool of 1-4 ballots with different multiplicities (0, 1, 2, 5, 10^15) and different "
-        "spellings / spacing of the same ballot, header counts right or wrong or missing or repeated, header lines "
+        "1-6 alternatives (6%: 12-15 alternatives or 12-14 categories all carrying one name, so that the suffix "
+        "counter reaches two digits, also next to X__9 / X__10 / X__11), names drawn with repetition from pools with "
+        "generated-suffix look-alikes (X, X__1, X__2, X__1__1, '', __1, Y, Y__1; X__9, X__10, X__11, X__99, X__100), "
+        "header ids distinct (85%) or repeated, 0-8 ballot lines drawn "
+        "with repetition from a pool of 1-4 ballots with different multiplicities (0, 1, 2, 5, 10^15; in 15% of the "
+        "contents from 2^53-1 .. 2^53+3, 2^53+2k+1, 3*2^53+7, 10^17+3, 2^64+-1, 10^30+7, and 2^52-sized values whose "
+        "sum over repeated lines crosses 2^53) and different "
+        "spellings / spacing of the same ballot, header counts right or wrong (also beyond 2^53, also the value a "
+        "double would round the right count to) or missing or repeated, header lines "
         "in any order, outer whitespace, LF / CRLF / CR; about a third of the contents is clean by construction; "
         "a few percent carry a malformed line (error classes must agree). Every content is parsed with "
         "autocorrect on and off through parse_file and parse_str. non-trivial = some raw name or some ballot "
         "occurs at least twice in the content and the parse succeeds")
 EXHAUSTIVE = {"quick": "every sequence of <= 3 alternative names (and of <= 3 category names) over {X, X__1, X__2} "
-                       "with two repeated ballot lines",
+                       "with two repeated ballot lines; 11/12/13/14/23 copies of one name alone and before/after "
+                       "X__9, X__10, X__11; every sequence of <= 4 names over {X, X__9, X__10} with X repeated; every "
+                       "multiplicity in {2^53-1, 2^53, 2^53+1, 2^53+3, 3*2^53+7, 10^17+3, 2^64-1, 2^64+1, 10^30+7} on "
+                       "one line, on a repeated line and next to small ones, with right and double-rounded header "
+                       "counts; repeated lines whose sum crosses 2^53",
               "thorough": "every sequence of <= 4 alternative names (and of <= 4 category names) over "
-                          "{X, X__1, X__2, X__1__1} with two repeated ballot lines; every sequence of <= 4 ballot "
+                          "{X, X__1, X__2, X__1__1} with two repeated ballot lines; the many-copies, X__9/X__10 "
+                          "(sequences <= 5) and 2^53-edge families of the quick tier; every sequence of <= 4 ballot "
                           "lines over 2 ballots x 2 multiplicities"}
 TRUSTED = ["modelled: OrdinalInstance.parse, CategoricalInstance.parse (+ recompute_cardinality_param), "
            "PrefLibInstance.parse_lines (reserved-name pre-scan) and parse_metadata; parse_file / parse_str through "
@@ -67,6 +77,22 @@ U = proto.untext
 TYPES = ["soc", "soi", "toc", "toi"]
 NAME_POOL = ["X", "X", "X", "X__1", "X__1", "X__2", "X__1__1", "", "", "__1", "Y", "Y__1", "Z z"]
 DISTINCT_NAMES = ["X", "X__1", "X__2", "X__1__1", "", "__1", "Y", "Y__1", "Z z", "A", "B"]
+# multiplicities / counts beyond the range where a double is exact (2**53), and sums that cross it
+BIG = [2 ** 53 - 1, 2 ** 53, 2 ** 53 + 1, 2 ** 53 + 1, 2 ** 53 + 3, 3 * 2 ** 53 + 7, 10 ** 17 + 3, 2 ** 64 - 1,
+       2 ** 64 + 1, 10 ** 30 + 7, 2 ** 52, 2 ** 52 + 1, 2 ** 53 - 2, 1, 3]
+SUFFIX_POOLS = [["X", "X", "X", "X__9", "X__10"], ["X", "X", "X__10", "X__9", "X__11"], ["X", "X__9", "X__10", "X__11"],
+                ["X", "X", "X__99", "X__100"], ["X", "X", "X__9", "X__10", "X__10__1"]]
+
+
+def big_mult(rng):
+    r = rng.random()
+    if r < 0.25:
+        return 2 ** 53 + 2 * rng.randint(0, 10 ** 6) + 1
+    if r < 0.35:
+        return rng.choice([2 ** 64, 10 ** 30, 10 ** 17]) + rng.randint(1, 99)
+    return rng.choice(BIG)
+
+
 PADS = ["", "", "", "", " ", "  ", "\t", "\u00a0", "\x1f ", "\u3000"]
 
 
@@ -127,12 +153,20 @@ def name_line(rng, prefix, i, name, dirty):
     return "# %s NAME %d%s%s" % (prefix, i, sep, name)
 
 
+def float_like(n):
+    """what int(float(n)) would make of n (a wrong header count that looks right)"""
+    v = int(float(n))
+    return v if v != n else n + 2 ** 53 + 1
+
+
 def gen_struct(rng, kind, clean):
     dirty = not clean
     dt = "cat" if kind == "cat" else rng.choice(TYPES)
-    m = rng.randint(1, 6)
-    big = rng.random() < 0.1
-    ids = rng.sample(range(1, 10 ** 18 if big else 12), m)
+    many = (not clean) and rng.random() < 0.06           # one name carried by >= 12 entries
+    big = rng.random() < 0.15                             # multiplicities / counts beyond 2**53
+    m = rng.randint(12, 15) if many and kind == "ord" or many and rng.random() < 0.5 else rng.randint(1, 6)
+    bigids = rng.random() < 0.1
+    ids = rng.sample(range(1, 10 ** 18 if bigids else 20), m)
     # --- names ---
     def draw_names(n_ids, id_list):
         if clean:
@@ -141,6 +175,13 @@ def gen_struct(rng, kind, clean):
         r = rng.random()
         if r < 0.15 and named:
             named.insert(rng.randrange(len(named) + 1), rng.choice(named))       # an id listed twice
+        if len(named) >= 12:
+            base = rng.choice(["X", "X", "", "X__1"])
+            pool = rng.choice([[base], [base] * 12 + [base + "__9", base + "__10", base + "__11"], [base] * 8 + ["Y"]])
+            return [(a, rng.choice(pool)) for a in named]
+        if rng.random() < 0.15:
+            pool = rng.choice(SUFFIX_POOLS)
+            return [(a, rng.choice(pool)) for a in named]
         pool = rng.choice([NAME_POOL, ["X", "X", "X__1"], ["X", "X__1", "X__2", "X__3"], ["", "__1", "__2"],
                            ["X", "X__1", "X__1__1"]])
         return [(a, rng.choice(pool)) for a in named]
@@ -154,7 +195,7 @@ def gen_struct(rng, kind, clean):
         if rng.random() < 0.7:
             hdr.append(["h", pad(rng, (k + v).strip() if not v else k + v, dirty), 0, ""])
     # --- ballots ---
-    ncat = rng.randint(1, 3)
+    ncat = rng.randint(12, 14) if many and kind == "cat" and m <= 6 else rng.randint(1, 3)
     nb_pool = rng.randint(1, 4)
     pool = []
     for _ in range(nb_pool * 4):
@@ -170,7 +211,7 @@ def gen_struct(rng, kind, clean):
         chosen = [rng.choice(pool) for _ in range(nlines)]
     body = []
     for b in chosen:
-        mult = rng.choice([1, 1, 2, 5, 10 ** 15, 0, 3])
+        mult = big_mult(rng) if big and rng.random() < 0.8 else rng.choice([1, 1, 2, 5, 10 ** 15, 0, 3])
         txt = cat_ballot_text(rng, b) if kind == "cat" else ord_ballot_text(rng, b)
         ms = str(mult)
         if dirty and rng.random() < 0.1:
@@ -191,7 +232,7 @@ def gen_struct(rng, kind, clean):
         if clean or rng.random() < 0.5:
             v = right
         else:
-            v = rng.choice([0, 1, right + 1, 99, 10 ** 20])
+            v = rng.choice([0, 1, right + 1, 99, 10 ** 20, 2 ** 53 + 1, float_like(right)])
         return ["h", pad(rng, "# %s: %d" % (key, v), dirty), 0, ""]
     keys = [("NUMBER ALTERNATIVES", len(alts)), ("NUMBER VOTERS", nvot),
             ("NUMBER UNIQUE " + ("PREFERENCES" if kind == "cat" else "ORDERS"), nuniq)]
@@ -257,6 +298,37 @@ def generate(tier, seed):
         out.append(mk_case(fixed_struct("ord", an, [], [(2, [[1], [2]]), (3, [[1], [2]])]), exh=1))
         out.append(mk_case(fixed_struct("cat", an, [(1, "Yes"), (2, "Yes")], [(2, [[1], [2]]), (3, [[1], [2]])]), exh=1))
         out.append(mk_case(fixed_struct("cat", [(1, "a"), (2, "a")], an, [(1, [[1]] + [[] for _ in an[1:]])] * 2), exh=1))
+    # many copies of one name (suffix counter reaches two digits), alone and next to X__9 / X__10 / X__11
+    for n_copies in (11, 12, 13, 14, 23):
+        for extra in ([], ["X__9"], ["X__10"], ["X__9", "X__10"], ["X__10", "X__9", "X__11"]):
+            for front in (0, 1):
+                names = (extra + ["X"] * n_copies) if front else (["X"] * n_copies + extra)
+                an = [(k + 1, nm) for k, nm in enumerate(names)]
+                out.append(mk_case(fixed_struct("ord", an, [], [(2, [[1], [2]]), (3, [[1], [2]])]), exh=3))
+                out.append(mk_case(fixed_struct("cat", an, [(1, "Yes"), (2, "Yes")], [(2, [[1], [2]]), (3, [[1], [2]])]), exh=3))
+                out.append(mk_case(fixed_struct("cat", [(1, "a"), (2, "a")], an, [(1, [[1]] + [[] for _ in an[1:]])] * 2), exh=3))
+    for names in seq_over(["X", "X__9", "X__10"], 4 if quick else 5):
+        if names.count("X") >= 2:
+            an = [(k + 1, nm) for k, nm in enumerate(names)]
+            out.append(mk_case(fixed_struct("ord", an, [], [(2, [[1], [2]]), (3, [[1], [2]])]), exh=3))
+            out.append(mk_case(fixed_struct("cat", [(1, "a"), (2, "a")], an, [(1, [[1]] + [[] for _ in an[1:]])] * 2), exh=3))
+    # multiplicities around 2**53 (where a double stops being exact): single lines, and repeated lines whose sum crosses it
+    edge = [2 ** 53 - 1, 2 ** 53, 2 ** 53 + 1, 2 ** 53 + 3, 3 * 2 ** 53 + 7, 10 ** 17 + 3, 2 ** 64 - 1, 2 ** 64 + 1, 10 ** 30 + 7]
+    for kind, b1, b2 in (("ord", [[1], [2]], [[2], [1]]), ("cat", [[1], [2]], [[1, 2], []])):
+        cn = [(1, "c"), (2, "d")] if kind == "cat" else []
+        for x in edge:
+            for body in ([(x, b1)], [(x, b1), (1, b2)], [(x, b1), (x, b1)], [(1, b1), (x, b2), (2, b1)]):
+                for right in (0, 1):
+                    nv, nu = sum(mm for mm, _ in body), len({proto.enc(b) for _, b in body})
+                    counts = ["# NUMBER ALTERNATIVES: 2", "# NUMBER VOTERS: %d" % (nv if right else float_like(nv)),
+                              "# NUMBER UNIQUE %s: %d" % ("PREFERENCES" if kind == "cat" else "ORDERS", nu)]
+                    if kind == "cat":
+                        counts.append("# NUMBER CATEGORIES: 2")
+                    st = fixed_struct(kind, [(1, "a"), (2, "b")], cn, body, dt="soc", counts=counts)
+                    st["clean"] = bool(right) and nu == len(body)
+                    out.append(mk_case(st, exh=4))
+        for x, y in ((2 ** 52, 2 ** 52 + 1), (2 ** 53 - 1, 2), (2 ** 53, 1), (2 ** 52 + 1, 2 ** 52 + 2)):
+            out.append(mk_case(fixed_struct(kind, [(1, "a"), (2, "b")], cn, [(x, b1), (y, b1), (1, b1)], dt="soc"), exh=4))
     if not quick:
         bl = [(1, [[1], [2]]), (5, [[1], [2]]), (1, [[2, 1]]), (5, [[2, 1]])]
         for body in seq_over(bl, 4):
@@ -534,6 +606,12 @@ def stats(c, r, m):
         renamed = sum(1 for (a, raw), (_, fin) in zip(mm[3], split_dump(kind, r["strT"][1]["dump"])["alt_names"])
                       if raw != fin) if ids_ok else -1
         lab.append("alt names renamed=%s" % (renamed if renamed < 3 else ">=3"))
+        mx = max([b[1] for b in st["body"] if b[1] is not None] + [0])
+        lab.append("largest line multiplicity %s" % ("<= 2^53" if mx <= 2 ** 53 else "> 2^53"))
+        for tag, what in (("a", "alternative"), ("c", "category")):
+            raws = [h[3] for h in st["hdr"] if h[0] == tag]
+            if raws and max(raws.count(x) for x in raws) >= 12:
+                lab.append("%s name carried by >= 12 entries" % what)
         nb = len([b for b in st["body"] if b[1] is not None])
         lab.append("ballot lines=%s" % (nb if nb <= 5 else ">5"))
         ra, rT = r["strT"][1]["dump"], r["strF"]
